@@ -28,7 +28,10 @@ files = re.findall(r"^\+\+\+ b/(\S+)", open(f"{O}/patch.diff").read(), re.M)
 res["files_changed"] = files
 pkgs = sorted({"./" + os.path.dirname(f) + "/" if os.path.dirname(f) else "." for f in files})
 named = re.findall(r"(?<![\w/])(\./[\w/]+/?(?:\.\.\.)?|(?<=\s)\.(?=\s))", meta.get("existing_tests_run", ""))
-allp = sorted(set(pkgs) | {p for p in named if os.path.isdir(os.path.join(W, p.replace("...", "").rstrip("/") or "."))})
+def haspkg(p):
+    d = os.path.join(W, p.replace("...", "").rstrip("/") or ".")
+    return os.path.isdir(d) and (p.endswith("...") or any(f.endswith(".go") for f in os.listdir(d)))
+allp = sorted(set(pkgs) | {p for p in named if haspkg(p)})
 demo = meta.get("demo", "")
 m = re.search(r"(?:to|as)\s+`?(?:<repo root>/|the repo(?:sitory)? root as\s+)?`?([\w./-]+_test\.go)`?", demo)
 dest = m.group(1) if m else None
@@ -36,7 +39,7 @@ m = re.search(r"-run[ =]+['\"]?([\w|^$()]+)", demo)
 cmd = None
 if m and dest:
     pkg = "./" + os.path.dirname(dest) + "/" if os.path.dirname(dest) else "."
-    cmd = f"go test -count=1 -run '{m.group(1)}' {pkg}"
+    cmd = f"go test -count=1 {'-race ' if '-race' in demo else ''}-run '{m.group(1)}' {pkg}"
 demo_src = [f for f in os.listdir(O) if f.endswith("_test.go") or f.endswith(".go")]
 if not dest or not cmd or not demo_src:
     print("cannot parse demo instructions:", demo); sys.exit(2)
